@@ -434,7 +434,12 @@ def work_unknown_layer(inst) -> dict:
     return res
 
 
-ENTRY_OPTS = ["exclusions", "regex_exclusions", "external_exclusions", "regex_external_exclusions", "exclude_external_libraries", "module_outside_root"]
+ENTRY_OPTS = ["exclusions", "regex_exclusions", "external_exclusions", "regex_external_exclusions", "exclude_external_libraries"]
+# where module_path lies (one n-ary symbolic choice): inside root_path, or outside in one of the ways a path can be
+# outside - an unrelated sibling, root_path's parent, a sibling whose NAME extends root_path's name (so that the two
+# path strings share a raw prefix), something below such a sibling, a sibling whose name is a prefix of the root's
+MODULE_PLACES = ["root/pkg", "root", "root/pkg/sub", "elsewhere", "", "root_legacy", "root_legacy/tools", "roo", "rootpkg"]
+N_INSIDE = 3
 
 
 def entry_call(root: str, opts: dict):
@@ -449,7 +454,8 @@ def entry_call(root: str, opts: dict):
     if opts["regex_external_exclusions"]:
         kw["regex_external_exclusions"] = ("os.*",)
     kw["exclude_external_libraries"] = bool(opts["exclude_external_libraries"])
-    mp = os.path.join(os.path.dirname(root), "elsewhere") if opts["module_outside_root"] else os.path.join(root, "pkg")
+    place = MODULE_PLACES[opts["module_place"]]
+    mp = os.path.join(os.path.dirname(root), place) if place else os.path.dirname(root)
     try:
         ev = get_evaluable_architecture(root, mp, **kw)
         return ("OK", len(ev.modules))
@@ -462,13 +468,20 @@ def entry_invalid(o: dict) -> bool:
         (o["regex_exclusions"] and o["exclusions"])
         or (o["regex_external_exclusions"] and o["external_exclusions"])
         or (o["exclude_external_libraries"] and (o["external_exclusions"] or o["regex_external_exclusions"]))
-        or o["module_outside_root"]
+        or o["module_place"] >= N_INSIDE
     )
 
 
 def _make_project(d):
     root = os.path.join(d, "root")
-    os.makedirs(os.path.join(root, "pkg"))
+    os.makedirs(os.path.join(root, "pkg", "sub"))
+    with open(os.path.join(root, "pkg", "sub", "k.py"), "w") as f:
+        f.write("from .. import m\n")
+    for place in MODULE_PLACES[N_INSIDE:]:
+        if place and place != "elsewhere":
+            os.makedirs(os.path.join(d, place))
+            with open(os.path.join(d, place, "n.py"), "w") as f:
+                f.write("import os\n")
     os.makedirs(os.path.join(d, "elsewhere"))
     open(os.path.join(root, "pkg", "__init__.py"), "w").close()
     with open(os.path.join(root, "pkg", "m.py"), "w") as f:
@@ -485,6 +498,7 @@ def work_entry(inst) -> dict:
 
         def fn():
             opts = {k: ENGINE.branch(("opt", k)) for k in ENTRY_OPTS}
+            opts["module_place"] = ENGINE.choice(("opt", "module_place"), len(MODULE_PLACES))
             got = entry_call(root, opts)
             return (entry_invalid(opts), got[0])
 
@@ -492,6 +506,7 @@ def work_entry(inst) -> dict:
         pool = VarPool()
         for k in ENTRY_OPTS:
             pool(("opt", k))
+        pool(("opt", "module_place"), len(MODULE_PLACES))
         bad = summ.formula(lambda o: o[0] and o[1] != "ERROR", pool)
         st, model = solver().check(bad)
         res = {"functions": funcs, "variables_total": len(ENTRY_OPTS), "paths": summ.paths, "forks": summ.forks, "errors": [], "violations": [], "replays": 0, "degenerate": True}
@@ -500,7 +515,7 @@ def work_entry(inst) -> dict:
             res["errors"].append("vacuity: no valid option combination builds an architecture")
         if st == "sat":
             a = pool.model_to_assign(model)
-            opts = {k: a.get(("opt", k), 0) for k in ENTRY_OPTS}
+            opts = {k: a.get(("opt", k), 0) for k in ENTRY_OPTS + ["module_place"]}
             payload = {"kind": "entry", "options": opts}
             ok, text, detail = replay_detail(payload)
             res["replays"] += 1
@@ -579,7 +594,7 @@ def run(tier: str, only: str | None = None) -> int:
         "architecture": f"modules {NODES}, every import relation (symbolic)",
         "mutants": "every single deletion, duplication and adjacent transposition of every complete Rule (4-5 calls) and LayerRule (5-6 calls) chain",
         "unknown_names": "misspelt, too deep, bare component, trailing dot, never-matching regexes, too-deep names on a level_limit=1 graph, undefined layers; on subject side, object side and inside a batch; all 12 shapes",
-        "entry_points": "2^6 combinations of option-supplied bits and module_path outside root_path",
+        "entry_points": "2^5 combinations of option-supplied bits x 9 placements of module_path (3 inside root_path; outside: unrelated sibling, the parent, siblings whose names extend / are a prefix of the root directory's name, a directory below such a sibling)",
     }
     rep.assumptions = [
         "history dimension is enumerated by the symbolic executor (n-ary choices); the import relation is solver-quantified and, for rejected rules, never inspected",
